@@ -348,6 +348,12 @@ def new_manifest_entry(tag, *args):
     return MANIFEST_TAG_MAPPING[tag](*args)
 
 
+# the longest line (in bytes, including the newline character) that
+# GnuPG covers completely when processing a cleartext signature
+# (MAX_LINELEN in g10/filter.h, less the line terminator)
+OPENPGP_MAX_LINE_LENGTH = 19994
+
+
 class ManifestState:
     """
     FSM constants for loading Manifest.
@@ -443,6 +449,14 @@ class ManifestFile:
                     continue
                 state = ManifestState.SIGNED_DATA
             elif state == ManifestState.SIGNED_DATA:
+                # GnuPG reads the cleartext in lines of limited length
+                # and does not hash what does not fit, so the rest
+                # of a longer line is not covered by the signature
+                if (len(line.encode('utf8', 'surrogatepass'))
+                        > OPENPGP_MAX_LINE_LENGTH):
+                    raise ManifestSyntaxError(
+                        f'Line too long to be protected by the OpenPGP '
+                        f'signature: {line[:64]!r}...')
                 if verify_openpgp:
                     openpgp_data += line
                 if line == '-----BEGIN PGP SIGNATURE-----\n':
